@@ -26,7 +26,10 @@ def secAlg (mac : Bool) : Handler
 
 def secAlgHandlers : List (String × Handler) := [
   ("nasenc", secAlg false),
-  ("nasmac", secAlg true)
+  ("nasmac", secAlg true),
+  -- the same calls made as the first use in a fresh process by several goroutines at once: a function of the arguments
+  ("nasenc_cold", secAlg false),
+  ("nasmac_cold", secAlg true)
 ]
 
 end Driver
